@@ -94,7 +94,7 @@ var propSpecs = []propSpec{
 			{dir: "mux", entry: "ZZC08Rec", quick: []int{2}, thorough: []int{3}},
 		},
 		covers:  []string{"head-vs-get", "content-length", "history", "registered", "rejected", "head-of-a-panicking-handler"},
-		bounds:  "HEAD vs GET: every handler behaviour of <= 3 Write calls whose sizes are symbolic 64-bit ints in [0,300000] (decided by z3, not enumerated), with/without an explicit WriteHeader of a symbolic status in [100,599], 0-2 headers set before the response starts, parameter value <= 2 arbitrary bytes; histories: every sequence of <= 3 operations from 12 (Handle of GET/POST/DELETE, Remove with lists containing GET, HEAD, OPTIONS, \"\", POST) followed by 7 methods on 2 paths; registration: every method string of <= 7 bytes, with and without WithTrace; HEAD of a route whose GET handler panics before writing, on routers with WithStatusRecovery / WithRecovery writing an error page",
+		bounds:  "HEAD vs GET: every handler behaviour of <= 3 Write calls whose sizes are symbolic 64-bit ints in [0,300000] (decided by z3, not enumerated), with/without an explicit WriteHeader of a symbolic status in [100,599] (1xx other than 101 modelled as net/http's informational responses, which do not end the header phase), 0-2 headers set before the response starts, and (for >= 2 writes without explicit WriteHeader) Content-Length deleted or overwritten by the handler between writes, parameter value <= 2 arbitrary bytes; histories: every sequence of <= 3 operations from 12 (Handle of GET/POST/DELETE, Remove with lists containing GET, HEAD, OPTIONS, \"\", POST) followed by 7 methods on 2 paths; registration: every method string of <= 7 bytes, with and without WithTrace; HEAD of a route whose GET handler panics before writing, on routers with WithStatusRecovery / WithRecovery writing an error page",
 		boundsT: "histories of <= 4 operations, method strings <= 8 bytes",
 		outside: "header mutations after the response has started (net/http ignores them on GET as well); more than 3 writes; sizes above 300000; Content-Length after an explicit WriteHeader (documented as unsupported)",
 		assume:  []string{"the underlying ResponseWriter sends the header on the first Write or when the handler returns (net/http semantics), modelled by the harness writer"},
